@@ -1621,6 +1621,18 @@ def _num_leading_zeros(I, fr, t, path, rargs, args):
     return AInt(32, False, 0, a.bits if _ai(a) else 128)
 
 
+def _num_saturating_neg(I, fr, t, path, rargs, args):
+    a = args[0]
+    if _ai(a) and a.signed:
+        tmin, tmax = AInt.trange(a.bits, True)
+        if a.is_const():
+            return AInt.const(a.bits, True, tmax if a.lo == tmin else -a.lo, taint=a.taint)
+        if a.lo > tmin:
+            r, _ = aval.neg(a)
+            return r
+    return AInt.top(a.bits, a.signed) if _ai(a) else ATop('?')
+
+
 def _num_leading_ones(I, fr, t, path, rargs, args):
     a = args[0]
     if _ai(a):
@@ -1652,6 +1664,7 @@ NUM_METHODS = {
     'leading_zeros': _num_leading_zeros,
     'trailing_zeros': _num_trailing_zeros,
     'leading_ones': _num_leading_ones,
+    'saturating_neg': _num_saturating_neg,
     'trailing_ones': _num_trailing_ones,
 }
 
